@@ -37,7 +37,9 @@ EXTRA = {
     "Cow[String]": ("as", ["as"]), "ObjectPath<&str>": ("o", ["o"]), "SigWrap<&str>": ("g", ["g"]),
     "Variant": ("v", ["v[y]", "v[s]", "v[a{sv[u]}]", "v[(yt)]"]), "ParamVariant": ("v", ["v[y]", "v[as]", "v[(yv[t])]"]),
     "DS1": ("(ys)", ["(ys)"]), "DS2": ("(t(ys)au)", ["(t(ys)au)"]), "DS3": ("(a{s(ys)}(yt)v)", ["(a{s(ys)}(yt)v[y])", "(a{s(ys)}(yt)v[(su)])"]),
-    "DE1": ("v", ["v[y]", "v[(su)]", "v[(tay)]", "v[a(ys)]", "v[t]"]), "DRec": ("v", ["v[y]", "v[av[y]]", "v[av[av[y]]]"]),
+    "DE1": ("v", ["v[y]", "v[(su)]", "v[(tay)]", "v[a(ys)]", "v[t]"]),
+    "DE2": ("v", ["v[s]", "v[(uu)]", "v[(a{su}a(ys))]", "v[(ys)]", "v[y]"]),
+    "MS2": ("v", ["v[y]", "v[at]", "v[a{us}]", "v[b]", "v[s]"]), "MV2": ("v", ["v[t]", "v[as]", "v[(uus)]", "v[y]"]), "DRec": ("v", ["v[y]", "v[av[y]]", "v[av[av[y]]]"]),
     "MS1": ("v", ["v[u]", "v[s]", "v[a{s(iy(ts))}]", "v[(uus)]", "v[t]"]), "MSRec": ("v", ["v[y]", "v[av[y]]"]),
     "MV1": ("v", ["v[s]", "v[i]", "v[o]", "v[ay]", "v[(uus)]", "v[t]"]), "Vec<DS1>": ("a(ys)", ["a(ys)"]),
     "Vec<DE1>": ("av", ["av[y]", "av[(su)]"]), "Vec<MV1>": ("av", ["av[s]", "av[i]"]), "(DS1,MS1)": ("((ys)v)", ["((ys)v[u])", "((ys)v[s])"]),
@@ -677,8 +679,18 @@ def build_model():
 
 
 def build_all():
-    rel = vlib.harness_build(["c04"], profile="release")["c04"]
-    dbg = vlib.harness_build(["c04"], profile="debug")["c04"]
+    def build(profile):
+        try:
+            return vlib.harness_build(["c04"], profile=profile)["c04"]
+        except vlib.BrokenTie as bt:
+            # rustc's incremental cache of the (debug) harness crate sometimes breaks after the sources changed under it
+            # ("internal compiler error: encountered incremental compilation error"): that says nothing about /repo
+            if "internal compiler error" not in bt.detail and "query stack" not in bt.detail:
+                raise
+            vlib.sh(["cargo", "clean", "--offline", "-p", "rbverif"] + (["--release"] if profile == "release" else []), cwd=vlib.harness_dir(), timeout=300)
+            return vlib.harness_build(["c04"], profile=profile)["c04"]
+    rel = build("release")
+    dbg = build("debug")
     rc, out = vlib.sh([rel, "info"], timeout=60)
     info = dict(kv.split("=", 1) for kv in out.strip().split(" ") if "=" in kv)
     rc, out = vlib.sh([rel, "types"], timeout=60)
